@@ -1,5 +1,5 @@
 (* C12 driver.  One case per line:
-     T <ext> <expr>          -> "OK <ty>" | "ERR <name>"          (type_of)
+     T <ext> <expr>          -> "OK <ty>[ unclean]" | "ERR <name>" (stmt_type_clean)
      C <ext> <ty> <ty>       -> "OK <ty>" | "NONE"                (find_common a b)
      D <ext> <ty> <ty>       -> "<int>"                           (cast_dist a b)
      S <ext> <ty> <ty>       -> "true" | "false"                  (issub a b)
@@ -132,6 +132,7 @@ let str_err = function
   | ENoMatch -> "NoMatch" | EAmbiguous -> "Ambiguous" | ENoFunc -> "NoFunc" | ENotUnique -> "NotUnique"
   | ECastErr -> "Cast" | EGeneric -> "Generic" | EArrayType -> "ArrayType" | EDupName -> "DupName"
   | EIndexErr -> "Index" | ETypeError -> "TypeError" | EInternal -> "Internal" | ENoName -> "NoName"
+  | ENestedArr -> "NestedArr"
   | EUnsupported -> "Unsupported"
 
 let rec z_to_int (z : z) : int =
@@ -168,8 +169,8 @@ let () =
           let items = parse_sexps rest in
           (match cmd, items with
            | 'T', [e] ->
-             (match stmt_type sg s_int64 (expr_of e) with
-              | Ok t -> "OK " ^ str_ty t
+             (match stmt_type_clean sg s_int64 (expr_of e) with
+              | Ok (t, clean) -> "OK " ^ str_ty t ^ (if clean then "" else " unclean")
               | Err e -> "ERR " ^ str_err e)
            | 'C', [a; b] ->
              (match find_common sg (ty_of a) (ty_of b) with
